@@ -577,6 +577,7 @@ func GenC04(seed uint64) *Plan {
 	// one shared pool and tasks built by the repository's own loadTasks in some
 	// runs (ownership is then attributed by stamp, not by connection)
 	p.SharedPool = g.chance(40)
+	p.Checks["permute_integrations"] = true
 	return p
 }
 
